@@ -54,6 +54,13 @@ pub struct Call {
     pub client: Client,
     /// virtual time offset (ms) at which the call is attempted
     pub at: u32,
+    /// the call is made although the service answered not-ready (the API permits it)
+    #[serde(default)]
+    pub force: bool,
+    /// the returned future is polled for the first time only this many ms (virtual) after the call
+    /// (used with clients that never complete; less than half the handshake timeout)
+    #[serde(default)]
+    pub poll_delay_ms: u16,
 }
 
 #[derive(Clone, Debug, Serialize, Deserialize, PartialEq)]
@@ -70,6 +77,10 @@ pub struct Case {
     /// the server writes its payload with vectored writes of this many slices (0 = write_all)
     #[serde(default)]
     pub slices: u8,
+    /// `max_concurrent_tls_connect` is called with this other value between the construction of
+    /// the first and the second service (the thread's limit was fixed when the first one was built)
+    #[serde(default)]
+    pub relimit: Option<u8>,
 }
 
 #[derive(Clone, Debug, PartialEq)]
@@ -298,8 +309,11 @@ async fn run_async(c: &Case) -> CaseResult {
     let services: Vec<Svc> = {
         let _g = LIMIT_LOCK.lock().unwrap_or_else(|e| e.into_inner());
         max_concurrent_tls_connect(limit);
-        let mut v = vec![];
+        let mut v: Vec<Svc> = vec![];
         for lib in c.libs.iter().take(2) {
+            if let (1, Some(other)) = (v.len(), c.relimit) {
+                max_concurrent_tls_connect(1 + (other as usize % 4));
+            }
             match lib {
                 Lib::Rustls => {
                     let mut f = acc_rustls::Acceptor::new(rustls_server_config());
@@ -329,6 +343,7 @@ async fn run_async(c: &Case) -> CaseResult {
     calls.sort_by_key(|x| x.at);
     let mut handles = vec![];
     let mut reached_limit = false;
+    let mut forced_over_limit = false;
     for (i, call) in calls.iter().enumerate() {
         let target = Duration::from_millis(call.at as u64);
         if t0.elapsed() < target {
@@ -361,10 +376,14 @@ async fn run_async(c: &Case) -> CaseResult {
         if ready != (n < limit) {
             return Err(Fail::new("C18/gate", format!("call {}: poll_ready is {} with {} handshake(s) in progress on the thread and a limit of {}", i, if ready { "Ready" } else { "Pending" }, n, limit)));
         }
-        recs.borrow_mut().push(CallRec { done: !ready, issued: ready, issued_at: now_ms(), resolved_at: None, outcome: None, integrity: None });
+        let proceed = ready || call.force;
+        recs.borrow_mut().push(CallRec { done: !proceed, issued: proceed, issued_at: now_ms(), resolved_at: None, outcome: None, integrity: None });
         if !ready {
             *parked.borrow_mut() = Some(cw);
-            continue;
+            if !proceed {
+                continue;
+            }
+            forced_over_limit = true;
         }
         let (server_end, client_end) = if c.pipe_cap == 0 { pipe_pair() } else { crate::io::pipe_pair_cap(c.pipe_cap as usize) };
         inflight.set(n + 1);
@@ -389,8 +408,16 @@ async fn run_async(c: &Case) -> CaseResult {
         };
         let client = call.client.clone();
         let ch = tokio::task::spawn_local(async move { run_client(client, client_end).await });
+        let poll_delay = match &call.client {
+            Client::Complete { .. } => 0,
+            _ => (call.poll_delay_ms as u64).min(c.timeout_ms as u64 / 2),
+        };
         handles.push(tokio::task::spawn_local(async move {
             let mut integrity = None;
+            if poll_delay > 0 {
+                // the caller gets round to the future a little later (a batch of calls, a busy task)
+                tokio::time::sleep(Duration::from_millis(poll_delay)).await;
+            }
             // called right after the accept future has resolved (and has been dropped with its guard)
             let mark = |o: Outcome| {
                 {
@@ -547,6 +574,9 @@ async fn run_async(c: &Case) -> CaseResult {
     obs.label_if(big_payload, "payload>16KiB");
     obs.label_if(vectored_backpressure, "vectored-write-under-backpressure");
     obs.label_if(c.pipe_cap != 0, "small-pipe");
+    obs.label_if(forced_over_limit, "called-although-not-ready");
+    obs.label_if(c.relimit.is_some() && services.len() >= 2, "limit-setter-called-between-services");
+    obs.label_if(calls.iter().any(|x| x.poll_delay_ms > 0 && !matches!(x.client, Client::Complete { .. })), "future-polled-late");
     obs.label_if(c.cloned, "cloned-factory");
     obs.label_if(services.len() >= 2, "two-services");
     Ok(obs)
@@ -608,19 +638,30 @@ fn client(timeout_ms: u32) -> impl Strategy<Value = Client> {
 pub fn strategy() -> impl Strategy<Value = Case> {
     (prop::collection::vec(lib(), 1..3), 1usize..4, prop::sample::select(vec![100u32, 500, 1000, 3000, 5000]), prop::bool::weighted(0.4))
         .prop_flat_map(|(libs, limit, timeout_ms, cloned)| {
-            let calls = prop::collection::vec((0u8..2, client(timeout_ms), prop_oneof![3 => Just(0u32), 2 => 0u32..(timeout_ms + 200)]).prop_map(|(svc, client, at)| Call { svc, client, at }), 1..6);
-            (Just(libs), Just(limit), Just(timeout_ms), Just(cloned), calls, prop_oneof![2 => Just(0u32), 1 => prop::sample::select(vec![700u32, 1500, 4096, 20_000])], prop_oneof![1 => Just(0u8), 1 => 2u8..5])
+            let calls = prop::collection::vec((0u8..2, client(timeout_ms), prop_oneof![3 => Just(0u32), 2 => 0u32..(timeout_ms + 200)]).prop_map(|(svc, client, at)| Call { svc, client, at, force: false, poll_delay_ms: 0 }), 1..6)
+                .prop_flat_map(|calls| {
+                    let n = calls.len();
+                    (Just(calls), prop::collection::vec((prop::bool::weighted(0.25), prop_oneof![2 => Just(0u16), 1 => 1u16..2000]), n))
+                })
+                .prop_map(|(mut calls, extra)| {
+                    for (c, (force, d)) in calls.iter_mut().zip(extra) {
+                        c.force = force;
+                        c.poll_delay_ms = d;
+                    }
+                    calls
+                });
+            (Just(libs), Just(limit), Just(timeout_ms), Just(cloned), calls, prop_oneof![2 => Just(0u32), 1 => prop::sample::select(vec![700u32, 1500, 4096, 20_000])], prop_oneof![1 => Just(0u8), 1 => 2u8..5], prop::option::weighted(0.3, any::<u8>()))
         })
-        .prop_map(|(libs, limit, timeout_ms, cloned, calls, pipe_cap, slices)| Case { libs, limit, timeout_ms, cloned, calls, pipe_cap, slices })
+        .prop_map(|(libs, limit, timeout_ms, cloned, calls, pipe_cap, slices, relimit)| Case { libs, limit, timeout_ms, cloned, calls, pipe_cap, slices, relimit })
 }
 
-const RULE: &str = "(1..2 acceptor services on one thread from {rustls 0.23, OpenSSL}, limit 1..3, handshake timeout in {0.1, 0.5, 1, 3, 5} s, configured factory used directly or cloned, 1..5 calls at generated virtual times; clients: complete (rustls or OpenSSL client, generated delay before each write, payloads up to 64 KiB both ways, the server writing its payload with write_all or with vectored writes of 2..4 slices), stall after n bytes, garbage with/without a record header, disconnect) over in-memory pipes (1 MiB per direction, or only 0.7..20 KB so that writers meet Pending in the middle of a write) under Tokio's paused clock, each case on a fresh thread; oracle: poll_ready of every service on the thread (all are asked before each call) is Pending iff the number of handshakes in progress on the thread is >= the limit and a parked poll is woken when a handshake ends; every call resolves to Ok / TLS error / Timeout no later than the timeout, Timeout never earlier, a completing client with total delay below the timeout gets Ok and both payloads arrive unchanged, a stalled client gets Timeout; non-trivial = a stalled or delayed client, the limit reached, or a payload > 16 KiB";
+const RULE: &str = "(1..2 acceptor services on one thread from {rustls 0.23, OpenSSL}, limit 1..3, handshake timeout in {0.1, 0.5, 1, 3, 5} s, configured factory used directly or cloned, 1..5 calls at generated virtual times, a quarter of them made although the service answered not-ready, futures of non-completing clients first polled up to timeout/2 after the call, max_concurrent_tls_connect optionally called with another value between building the two services; clients: complete (rustls or OpenSSL client, generated delay before each write, payloads up to 64 KiB both ways, the server writing its payload with write_all or with vectored writes of 2..4 slices), stall after n bytes, garbage with/without a record header, disconnect) over in-memory pipes (1 MiB per direction, or only 0.7..20 KB so that writers meet Pending in the middle of a write) under Tokio's paused clock, each case on a fresh thread; oracle: poll_ready of every service on the thread (all are asked before each call) is Pending iff the number of handshakes in progress on the thread is >= the limit and a parked poll is woken when a handshake ends; every call resolves to Ok / TLS error / Timeout no later than the timeout, Timeout never earlier, a completing client with total delay below the timeout gets Ok and both payloads arrive unchanged, a stalled client gets Timeout; non-trivial = a stalled or delayed client, the limit reached, or a payload > 16 KiB";
 
 pub fn run(ctx: &Ctx) {
     ctx.assume("virtual time (tokio::time::pause) with millisecond sampling; client delays never sum to within 10 ms of the timeout (the tie is not ranked by the property); only the rustls 0.23 and OpenSSL acceptors named in the quantifier are built");
     ctx.run_corpus::<Case>("accept", check_case);
     ctx.run_random(
-        Part::new("accept", RULE, ctx.tier.scale(30_000, 8)).floors(&[("stalled-or-delayed-client", 0.4), ("limit-reached", 0.2), ("outcome-ok", 0.3), ("outcome-timeout", 0.3), ("two-services", 0.3), ("cloned-factory", 0.2), ("small-pipe", 0.2), ("vectored-write-under-backpressure", 0.02)]).shrink_iters(300),
+        Part::new("accept", RULE, ctx.tier.scale(30_000, 8)).floors(&[("stalled-or-delayed-client", 0.4), ("limit-reached", 0.2), ("outcome-ok", 0.3), ("outcome-timeout", 0.3), ("two-services", 0.3), ("cloned-factory", 0.2), ("small-pipe", 0.2), ("vectored-write-under-backpressure", 0.02), ("called-although-not-ready", 0.07), ("future-polled-late", 0.2), ("limit-setter-called-between-services", 0.07)]).shrink_iters(300),
         strategy,
         check_case,
     );
@@ -628,4 +669,31 @@ pub fn run(ctx: &Ctx) {
 
 pub fn replay(ctx: &Ctx, v: &Value) -> i32 {
     ctx.replay::<Case>(v, check_case)
+}
+
+/// C17's third anchor (actix-tls/src/accept/mod.rs): the acceptor services of one thread are gated
+/// by clones of ONE Counter. Same cases as C18, judged only on the gate rules.
+pub fn check_gate(c: &Case) -> CaseResult {
+    match check_case(c) {
+        Err(f) if f.sig.starts_with("C18/gate") => Err(Fail::new(f.sig.replace("C18/", "C17/tls-"), f.msg)),
+        Err(_) => Ok(Obs::new()),
+        ok => ok,
+    }
+}
+
+const RULE_GATE: &str = "the Counter as the TLS acceptors use it (one per thread, cloned into every acceptor service built there): cases of C18's accept part (1..2 services from {rustls 0.23, OpenSSL}, limit 1..3, configured factory direct or cloned, max_concurrent_tls_connect optionally called with another value between building the two services, calls forced while not ready); oracle: poll_ready of every service on the thread is Pending iff the number of handshakes in progress on the thread is >= the limit in force when the first service was built, and a parked poll is woken when a handshake ends below the limit; non-trivial = the limit was reached";
+
+pub fn run_gate(ctx: &Ctx) {
+    ctx.run_corpus::<Case>("tls-gate", check_gate);
+    ctx.run_random(Part::new("tls-gate", RULE_GATE, ctx.tier.scale(6_000, 8)).floors(&[("limit-reached", 0.2), ("two-services", 0.3), ("limit-setter-called-between-services", 0.07)]).shrink_iters(300), strategy, |c| {
+        let mut r = check_gate(c);
+        if let Ok(o) = &mut r {
+            o.nontrivial = o.labels.contains(&"limit-reached");
+        }
+        r
+    });
+}
+
+pub fn replay_gate(ctx: &Ctx, v: &Value) -> i32 {
+    ctx.replay::<Case>(v, check_gate)
 }
